@@ -88,7 +88,7 @@ func loadProgram(cfg *config, repoDir, pkgPath, pkgDir string, harnessDirs []str
 		return nil, fmt.Errorf("entry function %s not found in %s", cfg.entry, pkgPath)
 	}
 	p.noopPkgs = []string{"github.com/apex/log", "github.com/sirupsen/logrus", "log"}
-	p.initPkgs = []string{"github.com/Flowpack/prunner", "github.com/taskctl/taskctl/pkg/scheduler", "github.com/gofrs/uuid"}
+	p.initPkgs = []string{"github.com/Flowpack/prunner/...", "github.com/taskctl/taskctl/pkg/scheduler", "github.com/gofrs/uuid"}
 	for name, msg := range map[string]string{
 		"context.Canceled":         "context canceled",
 		"context.DeadlineExceeded": "context deadline exceeded",
@@ -116,6 +116,21 @@ func loadProgram(cfg *config, repoDir, pkgPath, pkgDir string, harnessDirs []str
 	return p, nil
 }
 
+// matchInit: entries are exact import paths, or "prefix/..." for a package and its sub-packages.
+func matchInit(path string, list []string) bool {
+	for _, l := range list {
+		if strings.HasSuffix(l, "/...") {
+			b := strings.TrimSuffix(l, "/...")
+			if path == b || strings.HasPrefix(path, b+"/") {
+				return true
+			}
+		} else if path == l {
+			return true
+		}
+	}
+	return false
+}
+
 func hasPrefixPath(path string, list []string) bool {
 	for _, l := range list {
 		if path == l || strings.HasPrefix(path, l+"/") {
@@ -130,7 +145,7 @@ func hasPrefixPath(path string, list []string) bool {
 func (p *program) pkgRule(fn *ssa.Function, fr *frame, args []value) (value, bool) {
 	path := fn.Pkg.Pkg.Path()
 	if fn.Name() == "init" && fn.Synthetic != "" && fn.Signature.Recv() == nil {
-		if !hasPrefixPath(path, p.initPkgs) || p.skipInit(path) {
+		if !matchInit(path, p.initPkgs) {
 			return nil, true
 		}
 		return nil, false
